@@ -7,7 +7,7 @@ from hypothesis import strategies as st
 
 from .. import gen, model
 from ..core import SKIP, Enum, Sub
-from ..util import NAN, arr, compare, flags
+from ..util import carr, NAN, arr, compare, flags
 
 ID = "C09"
 RULE = ("cases: dyadic-grid series (plateau/ramp/spike/double-spike/alternating/free segments, NaN/None overlay), "
@@ -91,7 +91,7 @@ def check_spike(case, rec):
     nt, labels = nontrivial(case)
     rec.note(nt, labels)
     site = "qartod.spike_test"
-    got = flags(rec, site, rec.call(site, _spike(), arr(x), **kw), len(x))
+    got = flags(rec, site, rec.call(site, _spike(), carr(case, x), **kw), len(x))
     if got is SKIP:
         return
     allowed = model.model_spike(x, case["suspect"], case["fail"], case["method"])
@@ -145,7 +145,7 @@ def enum_cases(chunk):
 
 
 SUBS = [
-    Sub("spike_model", spike_case, check_spike, quick=4000, thorough=80000),
+    Sub("spike_model", lambda tier: gen.with_carrier(spike_case(tier)), check_spike, quick=4000, thorough=80000),
     Sub("spike_badmethod", badmethod_case, check_badmethod, quick=300, thorough=3000, quick_shards=1),
 ]
 ENUMS = [
